@@ -38,6 +38,7 @@ type c09Family struct {
 	leak    bool // iteration workload: per-iteration resource levels must be constant
 	multiWide bool // spawns one core whose frame is wide (peak measured on the same function run as entry core)
 	interp  bool // also meaningful for the interpreter (call depth only)
+	interpOnly bool
 	depthOf func(d int) int // interpreter call depth as a function of d (model)
 	seeded  bool            // generated from Params["g"] (see gen.go); gen is ignored
 }
@@ -200,6 +201,10 @@ fn main() {
 	}},
 }
 
+// interpOnly: the construct is only exercised on the interpreter (on the VM an exception that unwinds
+// across a call inside a loop is a known defect outside the claimed properties).
+func interpOnly(f c09Family) c09Family { f.interpOnly = true; return f }
+
 // Leak probes: one construct per family, executed once per iteration around
 // tick(); the signature of a leak names the construct.
 func leakFamily(name, helpers, body string) c09Family {
@@ -251,6 +256,15 @@ func init() {
 		leakFamily("break-in-try-in-loop", "", `let k = 0; loop { k = k + 1; try { if k > 2 { break; } } catch e { y = 0; } }`),
 		leakFamily("object-and-index", "", `let o = new { a: [i, i + 1], b: "s" }; y = o.a[1] + o.b.len();`),
 		leakFamily("option-unwrap", "", `let o = ?i; y = o.unwrap_or(0);`),
+		leakFamily("bare-return", "fn maybe(i: int) { if i % 2 == 0 { return; } let z = i; if z > 5 { return; } }", `maybe(i); y = y + 1;`),
+		leakFamily("bare-return-in-loop", "fn scan(i: int) { for k in 0..4 { if k == i % 4 { return; } } }", `scan(i); y = y + 1;`),
+		leakFamily("unused-try-value", "", `try { if i % 2 == 0 { throw("x"); } 1 } catch e { 2 }; y = y + 1;`),
+		leakFamily("unused-if-value", "", `if i % 2 == 0 { 1 } else { 2 }; y = y + 1;`),
+		leakFamily("unused-match-value", "", `match i % 3 { 0 => { 10 }, 1 => { 11 }, _ => { 12 } }; y = y + 1;`),
+		leakFamily("unused-block-value", "", `{ let q = i; q + 1 }; y = y + 1;`),
+		leakFamily("unused-nested-try-if", "", `try { if i % 3 == 0 { throw("a"); } if i % 3 == 1 { 5 } else { 6 } } catch e { if i > 2 { 7 } else { 8 } }; y = y + 1;`),
+		interpOnly(leakFamily("throwing-argument-caught", "fn bad(i: int) -> int { if i % 2 == 0 { throw(\"x\"); } i }\nfn store(x: int) -> int { x }", `y = y + try { store(bad(i)) } catch e { 0 };`)),
+		interpOnly(leakFamily("throwing-argument-of-method", "fn bad2(i: int) -> str { if i % 2 == 0 { throw(\"x\"); } \"s\" }\nfn keep(a: int, s: str) -> int { a + s.len() }", `y = y + try { keep(i, bad2(i)) } catch e { 0 };`)),
 		leakFamily("return-before-lambda", "fn pick(i: int) -> int { if i % 2 == 0 { return i; } let f = fn(x: int) -> int { x + 1 }; if i % 3 == 0 { return f(i); } f(i) + 1 }", `y = y + pick(i) % 5;`),
 		leakFamily("lambda-made-and-called", "", `let f = fn(x: int) -> int { if x > 3 { return x; } x * 2 }; y = y + f(i % 7) % 5;`),
 		leakFamily("return-from-nested-blocks", "fn deepret(i: int) -> int { let a = i; { let b = a + 1; { let c = b + 1; if c % 2 == 0 { return c; } { let d = c + 1; if d % 3 == 0 { return d; } } } } a }", `y = y + deepret(i) % 5;`),
@@ -650,7 +664,7 @@ func planC09(t *testing.T, tier string, seed uint64) ([]RunSpec, error) {
 		}
 		for _, d := range sizes {
 			for backend := 0; backend < 2; backend++ {
-				if backend == 1 && !f.interp {
+				if backend == 1 && !f.interp || backend == 0 && f.interpOnly {
 					continue
 				}
 				dd := d
